@@ -184,7 +184,7 @@ class Judge:
         # ---- C19 exact zero on all-zero columns (of a result that claims convergence: an
         # exhausted budget may legitimately return the caller's start point)
         if ctx.get("degenerate") and claimed:
-            out.extend(self._zero_columns(pr, res, w, tol))
+            out.extend(self._zero_columns(pr, res, w, tol, criterion_of(s.solver_name, knobs)))
         crit = criterion_of(s.solver_name, knobs)
         if claimed and crit in ("subdiff", "fixpoint") and pr.pen.kind != "vec" \
                 and s.solver_name in B.C01_SOLVERS:
@@ -195,7 +195,7 @@ class Judge:
         out.extend(self._diagnostics(pr, res, w, b, tol, crit, claimed, ctx))
         return out
 
-    def _zero_columns(self, pr, res, w, tol):
+    def _zero_columns(self, pr, res, w, tol, crit="subdiff"):
         """A penalised coefficient on an all-zero column must be exactly zero in a result that
         claims convergence -- wherever leaving it non-zero breaks stationarity by more than the
         tolerance (with a penalty slope below tol the start value is itself tol-stationary)."""
@@ -210,7 +210,8 @@ class Judge:
             for k in range(pr.pen.units(pr.p)):
                 idx = pr.pen.unit_indices(k)
                 if pmask[k] and not pr.absX[:, idx].any() and np.any(wv[idx] != 0):
-                    if pr.pen.subdiff_dist(wv, np.zeros_like(wv))[k] > tol * (1 + REL):
+                    if pr.pen.subdiff_dist(wv, np.zeros_like(wv))[k] > tol * (1 + REL) and \
+                            (crit != "fixpoint" or np.linalg.norm(wv[idx]) > tol * (1 + REL)):
                         bad.append(int(k))
         elif pr.pen.kind in ("sep", "row"):
             if pr.pen.name in ("IndicatorBox", "PositiveConstraint", "L2"):
@@ -218,7 +219,10 @@ class Judge:
             zero_g = np.zeros_like(wv)
             dist0 = pr.pen.subdiff_dist(wv, zero_g)
             for j in zero_cols:
-                if pmask[j] and np.any(wv[j] != 0) and dist0[j] > tol * (1 + REL):
+                # under the fixed-point criterion a coefficient smaller than tol is within
+                # tol of its fixed point (0)
+                if pmask[j] and np.any(wv[j] != 0) and dist0[j] > tol * (1 + REL) and \
+                        (crit != "fixpoint" or np.linalg.norm(np.atleast_1d(wv[j])) > tol * (1 + REL)):
                     bad.append(int(j))
         if bad:
             out.append(dict(prop=["C19"], oracle="zero_column",
@@ -300,7 +304,7 @@ class Judge:
                     max(res["knobs"].get("max_epochs", 1), 1) * pr.p
             se = res.get("seam") or {}
             cmax = max(se.get("max_abs_c", 0.0) or 0.0, se.get("hist_max_abs_c", 0.0) or 0.0)
-            allow = EPS * scale * (1e3 + 10 * np.sqrt(n_updates)) + 100 * EPS * cmax * scale
+            allow = EPS * scale * (1e4 + 10 * np.sqrt(n_updates)) + 100 * EPS * cmax * scale
             if s.solver_name == "PDCD_WS":
                 # up to 1e6 in-place updates whose count is not observable: a relative 1e-7
                 allow = max(allow, 1e-7 * scale)
